@@ -494,6 +494,10 @@ func gen() ([]byte, error) {
 				}
 			case *ast.AssignStmt:
 				for i, l := range x.Lhs {
+					// x.F = e  and  x.F[k] = e (a map-typed field such as Metas)
+					if ix, ok := l.(*ast.IndexExpr); ok {
+						l = ix.X
+					}
 					se, ok := l.(*ast.SelectorExpr)
 					if !ok {
 						continue
